@@ -148,7 +148,21 @@ func planC11(g *Gen, tier string) ([]SQLCase, map[string]int, bool) {
 		f := g.sqlFrame(nr, 1+g.r.Intn(4))
 		w := &WCase{HasOpt: true, Dialect: BStr(dialectNames[g.r.Intn(len(dialectNames))]), TypeMapNil: true, Table: BStr([]string{"t", "my table", "T2"}[g.r.Intn(3)]), Frame: f}
 		w.IfExists = BStr([]string{"", "fail", "replace", "append"}[g.r.Intn(4)])
-		w.Batch = int64([]int{0, 1, 2, 3, nr, nr + 1, 1000, math.MaxInt32}[g.r.Intn(8)])
+		w.Batch = []int64{0, 1, 2, 3, int64(nr), int64(nr + 1), 1000, math.MaxInt32, math.MaxInt64, math.MaxInt64 - 1}[g.r.Intn(10)]
+		if g.chance(0.15) && len(f.Cols) > 0 {
+			// a column name with a printf verb, a question mark or blanks in it
+			ci := g.r.Intn(len(f.Cols))
+			nm := BStr([]string{"growth %", "100%s", "ok?", "a b ", "%d%%", "[x y]"}[g.r.Intn(6)])
+			clash := false
+			for _, c := range f.Cols {
+				clash = clash || c.Key == nm
+			}
+			if !clash {
+				f.Cols[ci].Key, f.Cols[ci].Name = nm, nm
+				f = mkFrame(f.Cols...)
+				w.Frame = f
+			}
+		}
 		w.Entry = []string{"ToSQL", "ToSQLContext", "ToSQLTx", "ToSQLTxContext"}[g.r.Intn(4)]
 		w.Tx = w.Entry == "ToSQLTx" || w.Entry == "ToSQLTxContext"
 		tag := "random"
@@ -233,7 +247,7 @@ func planC12(g *Gen, tier string) ([]SQLCase, map[string]int, bool) {
 						w.Fault = k
 						// the failure is sometimes a context error coming from the driver (a statement timeout) although the
 						// caller's context is alive
-						w.FaultKind = []string{"", "", "deadline", "canceled", "wrapped"}[(k+n+bs)%5]
+						w.FaultKind = []string{"", "", "deadline", "canceled", "wrapped", "locked", "deadlock", "serialize"}[(k+n+bs+present)%8]
 						cases = append(cases, SQLCase{Kind: "w", Tag: "fault", W: &w})
 						stats["fault"]++
 						c := base
@@ -512,6 +526,10 @@ func planC14(g *Gen, tier string) ([]SQLCase, map[string]int, bool) {
 		}
 		hs := handlers(names)
 		h := hs[g.r.Intn(len(hs))]
+		rs.NotNull = g.chance(0.25)
+		if rs.ErrAt >= 0 {
+			rs.ErrKind = []string{"", "eof", "neteof"}[g.r.Intn(3)]
+		}
 		r := &RCase{Handler: h, RS: rs, Dates: dates, DatesNil: datesNil, Entry: []string{"FromSQL", "FromSQLContext", "FromSQLTx", "FromSQLTxContext"}[g.r.Intn(4)]}
 		if g.chance(0.1) {
 			r.NoOpts = true
@@ -565,11 +583,13 @@ func planC14(g *Gen, tier string) ([]SQLCase, map[string]int, bool) {
 	// an error injected at each row of the iteration
 	for nr := 0; nr <= 4; nr++ {
 		for at := 0; at <= nr; at++ {
-			rs := ResultSet{Names: []BStr{"a", "b"}, Types: []BStr{"INTEGER", "TEXT"}, Rows: [][]Cell{}, ErrAt: at}
-			for r := 0; r < nr; r++ {
-				rs.Rows = append(rs.Rows, []Cell{IntCell("int64", int64(r)), StrCell("x")})
+			for _, kind := range []string{"", "eof", "neteof"} {
+				rs := ResultSet{Names: []BStr{"a", "b"}, Types: []BStr{"INTEGER", "TEXT"}, Rows: [][]Cell{}, ErrAt: at, ErrKind: kind}
+				for r := 0; r < nr; r++ {
+					rs.Rows = append(rs.Rows, []Cell{IntCell("int64", int64(r)), StrCell("x")})
+				}
+				add("iteration-error-each-row", &RCase{Handler: Handler{Kind: "default"}, RS: rs, DatesNil: true, Entry: "FromSQL"})
 			}
-			add("iteration-error-each-row", &RCase{Handler: Handler{Kind: "default"}, RS: rs, DatesNil: true, Entry: "FromSQL"})
 		}
 	}
 	return cases, stats, true
